@@ -3,6 +3,7 @@ package main
 
 import (
 	"flag"
+	"runtime/pprof"
 	"fmt"
 	"os"
 	"sort"
@@ -90,6 +91,8 @@ func cmdRun(args []string) int {
 	trace := fs.Bool("trace", false, "trace instructions")
 	conc := fs.Int("conc", 64, "concretisation limit")
 	maxPaths := fs.Int("maxpaths", 0, "stop after this many paths (0 = no cap)")
+	timeFixed := fs.Bool("timefixed", false, "time.Now returns a fixed instant")
+	stall := fs.Bool("stall", false, "budget overruns are stall candidates")
 	fs.Parse(args)
 	lp, err := loadProgram(*pkg)
 	if err != nil {
@@ -97,7 +100,7 @@ func cmdRun(args []string) int {
 		return 2
 	}
 	cfg := &harnessCfg{Prop: "adhoc", Pkg: *pkg, Func: *fn, Tier: *tier, StepBudget: *steps, DecBudget: *decs,
-		concLimit: *conc, Timeout: time.Duration(*timeout) * time.Second, Workers: *workers, FP: *fp, MaxPaths: *maxPaths}
+		concLimit: *conc, Timeout: time.Duration(*timeout) * time.Second, Workers: *workers, FP: *fp, MaxPaths: *maxPaths, TimeFixed: *timeFixed, Stall: *stall}
 	traceAll = *trace
 	res := runHarness(cfg, lp)
 	printResult(res)
@@ -161,6 +164,16 @@ func fmtVec(v []uint64) string {
 }
 
 func main() {
+	if f := os.Getenv("GOSYMEX_CPUPROFILE"); f != "" {
+		fh, _ := os.Create(f)
+		pprof.StartCPUProfile(fh)
+		go func() {
+			time.Sleep(25 * time.Second)
+			pprof.StopCPUProfile()
+			fh.Close()
+			os.Exit(9)
+		}()
+	}
 	if len(os.Args) < 2 {
 		fmt.Fprintln(os.Stderr, "usage: gosymex run|check|replay ...")
 		os.Exit(2)
